@@ -63,6 +63,7 @@ def _one_chunk(args):
     msgs, drift, xstat, states, distinct = [], [], [], 0, 0
     itsteps = 0
     mlsteps = 0
+    pstat = []
     for sp in spec.split("+"):
         r = vlib.run_tlc(os.path.join(vlib.SPEC, sp + ".tla"), os.path.join(vlib.SPEC, sp + ".cfg"),
                          os.path.join(bdir, "tlc_%s_%03d" % (sp, idx)), env={"TRACE": trc}, workers=1, timeout=3000, xmx="1g")
@@ -81,11 +82,12 @@ def _one_chunk(args):
             itsteps += int(body)
         for body in _tuples(r.out, "MLSTEPS"):
             mlsteps += int(body)
+        pstat += _tuples(r.out, "PSTAT")
     t2 = time.time()
     for m in msgs:
         m["chunk"] = idx
     return {"idx": idx, "beh": beh, "trace": trc, "lines": nlines, "states": states, "distinct": distinct,
-            "msgs": msgs, "drift": drift, "xstat": xstat, "itsteps": itsteps, "mlsteps": mlsteps, "t_driver": t1 - t0, "t_tlc": t2 - t1, "execs": len(execs)}
+            "msgs": msgs, "drift": drift, "xstat": xstat, "itsteps": itsteps, "mlsteps": mlsteps, "pstat": pstat, "t_driver": t1 - t0, "t_tlc": t2 - t1, "execs": len(execs)}
 
 
 def run_api(bdir, drv, beh_lines, nproc=None, spec="ApiTrace", drv_env=None):
